@@ -224,13 +224,15 @@ def rule_successor(ctx, M, prefix="C04"):
     if not problems:
         fn, sb, val, _ = r_inc[0]
         pr = P.Prov(fn)
-        e_lt = I.edges_implying(fn, pr, "Lt", lambda t: t == fR, lambda t: P.const_int(t) == L_ - 1) + \
-            I.edges_implying(fn, pr, "Le", lambda t: t == fR, lambda t: P.const_int(t) == L_ - 2)
+        def is_r(t):
+            return t == fR or P.strip(P.unwiden(t)) == fR          # `river < 48` or `(river as usize) < DECK_LEN - 1`
+        e_lt = I.edges_implying(fn, pr, "Lt", is_r, lambda t: P.const_int(t) == L_ - 1) + \
+            I.edges_implying(fn, pr, "Le", is_r, lambda t: P.const_int(t) == L_ - 2)
         if not e_lt or not I.guarded_by(fn, sb, e_lt):
             problems.append((fn, fn.blocks[sb]["line"], f"`river += 1` is not guarded by `river < {L_ - 1}` (the last deck index)"))
         tb = stores[T][0][1]
-        e_ge = I.edges_implying(fn, pr, "Ge", lambda t: t == fR, lambda t: P.const_int(t) == L_ - 1) + \
-            I.edges_implying(fn, pr, "Gt", lambda t: t == fR, lambda t: P.const_int(t) == L_ - 2)
+        e_ge = I.edges_implying(fn, pr, "Ge", is_r, lambda t: P.const_int(t) == L_ - 1) + \
+            I.edges_implying(fn, pr, "Gt", is_r, lambda t: P.const_int(t) == L_ - 2)
         if stores[T][0][0] is fn and (not e_ge or not I.guarded_by(fn, tb, e_ge)):
             problems.append((fn, fn.blocks[tb]["line"], f"`turn += 1` is not guarded by `river >= {L_ - 1}`"))
     if problems:
